@@ -537,6 +537,11 @@ func newSlim(keys []string, bytesValues [][]byte, opt *Opt) (*Slim, error) {
 			panic("wordStart smaller than o.fromKeyBit")
 		}
 
+		if !*opt.InnerPrefix && (wordStart-o.fromKeyBit)>>2 > maxStep {
+			return nil, errors.Wrapf(ErrTooLongStep,
+				"keys[%d:%d] share %d bits", s, e, wordStart-o.fromKeyBit)
+		}
+
 		ks := make([]string, 0)
 		for i := s; i < e; i++ {
 			if tokeep[i] {
